@@ -36,7 +36,8 @@ def compile_probe(src):
 
 def run_probe(probe, text, **kw):
     try:
-        got = probe(impl.P.Chart.from_file(io.StringIO(text), **kw))
+        with impl.limited():
+            got = probe(impl.P.Chart.from_file(io.StringIO(text), **kw))
     except Exception as e:  # noqa: BLE001
         got = ["raises", type(e).__name__]
     if envs.STRIDE:
